@@ -47,10 +47,26 @@ const streamCap = 1 << 18
 func NewTape(seed uint64) *Tape {
 	t := &Tape{}
 	for k := 0; k < NKinds; k++ {
-		t.S[k].Vals = make([]uint32, 0, streamCap)
+		c := streamCap
+		if k != KSched {
+			c = streamCap / 8
+		}
+		t.S[k].Vals = make([]uint32, 0, c)
+	}
+	t.Reset(seed)
+	return t
+}
+
+// Reset makes an explore-mode tape ready for another run without reallocating
+// its streams (workers reuse one tape for all their runs).
+func (t *Tape) Reset(seed uint64) {
+	for k := 0; k < NKinds; k++ {
+		t.S[k].Vals = t.S[k].Vals[:0]
+		t.S[k].Pos = 0
+		t.S[k].Over = false
+		t.S[k].Replay = false
 		t.S[k].rng = mix(seed + uint64(k)*0x632be59bd9b4e019)
 	}
-	return t
 }
 
 // NewReplayTape returns a tape that replays vals (copied) and yields 0 beyond.
